@@ -350,8 +350,8 @@ func (c *CheckCtx) judgeConc(cases []*concCase, label string) error {
 		for _, m := range re.FindAllStringSubmatch(res.Output, -1) {
 			idx, _ := strconv.Atoi(m[2])
 			cs := cases[idx-1]
-			if m[1] == "P_Completed" && strings.HasPrefix(cs.run.Note, "infeasible") {
-				continue
+			if strings.HasPrefix(cs.run.Note, "infeasible") {
+				continue // the given schedule cannot be followed by this code: nothing was observed
 			}
 			seen[m[1]]++
 			if seen[m[1]] > 2 {
